@@ -879,3 +879,174 @@ func retOrdinalOfLoad(fn *ssa.Function, at ssa.Instruction) string {
 	}
 	return "?"
 }
+
+// checkDelIdRecorded (C08): the store wrapper records the id of every numbered delete transaction
+// at the topic row: with delID > 0 no success return is reached without TopicUpdate{DelId}.
+func (c *Ctx) checkDelIdRecorded() {
+	r := c.R
+	fn := c.ssaMethod("server/store", "messagesMapper", "DeleteList")
+	r.Func(fk(fn))
+	topicUpdate := c.method("server/db", "Adapter", "TopicUpdate")
+	var delIDp *ssa.Parameter
+	for _, p := range fn.Params {
+		if b, ok := p.Type().Underlying().(*types.Basic); ok && b.Kind() == types.Int {
+			delIDp = p
+		}
+	}
+	var upd ssa.Instruction
+	c.withCallees(fn, 1, func(_ *ssa.Function, in ssa.Instruction, outer ssa.Instruction) {
+		if call, ok := in.(*ssa.Call); ok && core.CalleeOf(&call.Call) == topicUpdate {
+			args := core.CallArgs(&call.Call)
+			if _, has := mapLiteralKeys(args[len(args)-1])["DelId"]; has {
+				upd = outer
+			}
+		}
+	})
+	if upd == nil || delIDp == nil {
+		r.Fail("C08.4c-delete-id-recorded", fk(fn)+": TopicUpdate{DelId}", c.P.Pos(fn.Pos()), "the delete transaction id is no longer recorded at the topic: anchor lost")
+		return
+	}
+	// numbered transactions only: cut the edges on which delID > 0 fails
+	g := core.LessGuard("0<delID", core.IsConstInt(0), func(v ssa.Value) bool { return core.Strip(v) == ssa.Value(delIDp) }, true)
+	cut := core.FailEdges(fn, g)
+	ei := errIndex(fn.Signature)
+	miss := false
+	var where ssa.Instruction
+	res := core.NilWalk(fn, nil, cut, func(in ssa.Instruction) bool { return in == upd }, func(in ssa.Instruction, f core.NilFacts) {
+		ret, ok := in.(*ssa.Return)
+		if !ok {
+			return
+		}
+		if k, n := core.Nilness(ret.Results[ei], f); k && !n {
+			return
+		}
+		miss, where = true, in
+	})
+	r.Check(!miss && !res.Overflow && len(cut) > 0, "C08.4c-delete-id-recorded", fk(fn)+": every numbered delete records its id at the topic", c.pos(upd), "",
+		"a numbered delete transaction can succeed"+posOf(c, where)+" without its id being recorded at the topic row: after a reload the topic re-issues the id and reports a stale `clear` value")
+}
+
+// checkFeaturesAccumulate (C11): the features put into the record handed to the token generator
+// are the authenticator's features, possibly with bits added: never replaced by a constant (the
+// no-login restriction of a token must survive a login with it).
+func (c *Ctx) checkFeaturesAccumulate() {
+	r := c.R
+	featF := c.field("server/auth", "Rec", "Features")
+	n := 0
+	var allFrom func(v ssa.Value, d int) bool
+	allFrom = func(v ssa.Value, d int) bool {
+		v = core.Strip(v)
+		if d > 8 {
+			return false
+		}
+		if core.IsFieldLoad(featF)(v) {
+			return true
+		}
+		switch x := v.(type) {
+		case *ssa.Phi:
+			for _, e := range x.Edges {
+				if !allFrom(e, d+1) {
+					return false
+				}
+			}
+			return len(x.Edges) > 0
+		case *ssa.BinOp:
+			if x.Op == token.OR {
+				return allFrom(x.X, d+1) || allFrom(x.Y, d+1)
+			}
+		}
+		return false
+	}
+	for _, fn := range c.P.ModFuncs {
+		if !core.InPkg(fn, "server") || !isPtrToNamedRecv(fn, "Session") {
+			continue
+		}
+		for _, st := range core.StoresToField(fn, featF) {
+			if rootsInAlloc(st.Addr) {
+				continue // a fresh record built by the server itself (reset secret): not an authenticator's record
+			}
+			n++
+			r.Func(fk(fn))
+			r.Check(allFrom(st.Val, 0), "C11.3e-features-accumulate", fmt.Sprintf("%s: Rec.Features rewritten only with bits added #%s", fk(fn), retOrdinalOfStore(fn, st)), c.pos(st), "",
+				"the features of the authenticated record are replaced instead of extended: a restricted (no-login) token is exchanged for an unrestricted one")
+		}
+	}
+	r.Check(n >= 1, "C11.3e-features-accumulate", "stores to auth.Rec.Features in the session", "-", fmt.Sprintf("%d", n), "anchor lost")
+}
+
+// checkTagDeltaOrder (C19): stringSliceDelta(old, new): where one argument is the topic's cached
+// tags it is the first one (the helper's "removed" result is what the cache refresh relies on).
+func (c *Ctx) checkTagDeltaOrder() {
+	r := c.R
+	delta := c.fn("server", "stringSliceDelta")
+	liveTags := c.E().topicField("tags")
+	n := 0
+	for _, fn := range c.funcsCalling(delta, "server") {
+		for _, ci := range core.CallsTo(fn, delta) {
+			args := core.CallArgs(ci.Common())
+			a0 := core.Derives(args[0], core.IsFieldLoad(liveTags), false)
+			a1 := core.Derives(args[1], core.IsFieldLoad(liveTags), false)
+			if !a0 && !a1 {
+				continue
+			}
+			n++
+			r.Func(fk(fn))
+			r.Check(a0 && !a1, "C19.1c-tag-delta-order", fmt.Sprintf("%s: stringSliceDelta(cached tags, new tags) #%s", fk(fn), retOrdinalOfCall(fn, ci.(ssa.Instruction))), c.pos(ci), "",
+				"the cached tags are passed as the *new* list: added and removed are swapped, the cache is not refreshed when a tag disappears and a later {set tags} is compared with stale restricted tags")
+		}
+	}
+	r.Check(n >= 2, "C19.1c-tag-delta-order", "delta computations against the cached tags", "-", fmt.Sprintf("%d", n), "fewer than two: anchor lost")
+}
+
+// checkCollectorChannel (C14): a completion channel handed to several topics in one sweep is the
+// sweep's own collector (created there), not the caller's: the caller's channel is signalled once,
+// after the collector was drained.
+func (c *Ctx) checkCollectorChannel() {
+	r := c.R
+	doneF := c.field("server", "shutDown", "done")
+	n := 0
+	for _, fn := range c.P.ModFuncs {
+		if !core.InPkg(fn, "server") {
+			continue
+		}
+		for _, st := range core.StoresToField(fn, doneF) {
+			n++
+			r.Func(fk(fn))
+			v := core.Strip(st.Val)
+			_, isMake := v.(*ssa.MakeChan)
+			if ct, ok := v.(*ssa.ChangeType); ok {
+				_, isMake = core.Strip(ct.X).(*ssa.MakeChan)
+			}
+			if mi, ok := v.(*ssa.MakeInterface); ok {
+				_, isMake = core.Strip(mi.X).(*ssa.MakeChan)
+			}
+			isNil := core.IsNil(v)
+			// a collector declared first and created conditionally (`var done chan bool; if caller != nil
+			// { done = make(..) }`), possibly captured by the sweep's function literal: every value ever
+			// stored into the variable is a channel created here
+			if ld, ok := v.(*ssa.UnOp); ok && ld.Op == token.MUL && !isMake {
+				cell := ld.X
+				if fv, ok := cell.(*ssa.FreeVar); ok {
+					if b := core.FreeVarBinding(fv); b != nil {
+						cell = b
+					}
+				}
+				if al, ok := cell.(*ssa.Alloc); ok && al.Referrers() != nil {
+					all, any := true, false
+					for _, ref := range *al.Referrers() {
+						if s2, ok := ref.(*ssa.Store); ok && s2.Addr == ssa.Value(al) {
+							any = true
+							if _, mk := core.Strip(s2.Val).(*ssa.MakeChan); !mk && !core.IsNil(s2.Val) {
+								all = false
+							}
+						}
+					}
+					isMake = all && any
+				}
+			}
+			r.Check(isMake || isNil, "C14.6b-collector-channel", fmt.Sprintf("%s: shutDown.done is this function's own collector #%s", fk(fn), retOrdinalOfStore(fn, st)), c.pos(st), "",
+				"the completion channel given to the topics is not the collector created by the sweep (for instance the caller's unbuffered channel): the caller is released by the first topic and the others block forever")
+		}
+	}
+	r.Check(n >= 2, "C14.6b-collector-channel", "shutDown literals with a completion channel", "-", fmt.Sprintf("%d", n), "fewer than two: anchor lost")
+}
